@@ -3,7 +3,7 @@
    without recover and indexes one array by the length of another (TraceQLRequestProcessor) is fault-free on rows
    whose three array columns are consistent, and that condition is needed; the portion loop of
    ComplexRequestProcessor issues a bounded number of statements. *)
-From Coq Require Import List ZArith Bool Lia.
+From Coq Require Import List ZArith Bool Lia ZifyNat.
 From Qryn Require Import model.Pipeline model.ReadPath model.ReadFwd proofs.PipelineProofs.
 Import ListNotations.
 Open Scope Z_scope.
@@ -18,7 +18,7 @@ Proof. intros canc i m. simpl. destruct m as [[| |]| |]; discriminate. Qed.
 Lemma tq_good : good_node tq_node.
 Proof.
   intros canc i m. simpl. destruct m as [[| |ns nd nt]| |]; try discriminate.
-  destruct (trace_row_safe ns nd nt); discriminate.
+  unfold tq_on_msg. destruct (trace_row_safe ns nd nt); discriminate.
 Qed.
 Lemma fwd_good : forall fl, good_node (fwd_node fl).
 Proof. intros fl canc i m. simpl. destruct m; discriminate. Qed.
@@ -54,17 +54,17 @@ Qed.
 Lemma lbl_nofault_on : nofault_node_on fmsg_ok lbl_node.
 Proof.
   apply nofault_on_of_nofault; [apply lbl_nofault| |reflexivity].
-  intros canc i m _. simpl. destruct m as [[| |]| |]; try reflexivity. destruct (i =? 0); reflexivity.
+  intros canc i m _. destruct m as [[| |]| |]; simpl; try reflexivity. destruct (i =? 0); reflexivity.
 Qed.
 Lemma bare_nofault_on : nofault_node_on fmsg_ok bare_node.
 Proof.
   apply nofault_on_of_nofault; [apply bare_nofault| |reflexivity].
-  intros canc i m _. simpl. destruct m as [[| |]| |]; reflexivity.
+  intros canc i m _. destruct m as [[| |]| |]; reflexivity.
 Qed.
 Lemma fwd_nofault_on : forall fl, nofault_node_on fmsg_ok (fwd_node fl).
 Proof.
   intros fl. apply nofault_on_of_nofault; [apply fwd_nofault| |reflexivity].
-  intros canc i m _. simpl. destruct m; try reflexivity. destruct fl; [apply forallb_repeat_str|reflexivity].
+  intros canc i m _. destruct m; simpl; try reflexivity. destruct fl; [apply forallb_repeat_str|reflexivity].
 Qed.
 Lemma sink_nofault_on : nofault_node_on fmsg_ok sink_node.
 Proof.
@@ -165,7 +165,7 @@ Proof.
            | |- context [match f_sel q with _ => _ end] => destruct (f_sel q)
            | |- context [match cx_max ?l ?a with _ => _ end] => destruct (cx_max l a) as [cx|]
            end;
-    rewrite ?stream_stmts, ?sync_stmts; simpl; try lia.
+    rewrite ?stream_stmts, ?sync_stmts; cbn [snd]; try lia.
   all: pose proof (portion_loop_stmts (Z.to_nat (portions_of cx)) q 1) as Hp; lia.
 Qed.
 
